@@ -560,16 +560,6 @@ def has_unsigned_native(tree):
     return tree_any(tree, lambda t: t[0] == "i" and int_unsigned_native(t))
 
 
-def has_oer_positive_varlen_int(tree):
-    """INTEGER with OER constraint {width 0, positive}: lower bound >= 0, no upper bound, not extensible"""
-    return tree_any(tree, lambda t: t[0] == "i" and t[2] is not None and t[2] >= 0 and t[3] is None and not t[4])
-
-
-def has_tagged_choice(tree):
-    """a CHOICE directly under an EXPLICIT tag (the CHOICE decoder then reads end-of-contents octets itself)"""
-    return tree_any(tree, lambda t: t[0] == "x" and t[2][0] == "c")
-
-
 def zero_size_elem_list(tree, syn):
     """SEQUENCE OF / SET OF whose element can be encoded in zero octets (OER) / zero bits (UPER)"""
     def zero(t):
